@@ -33,6 +33,9 @@ var c12Meta = []string{
 	`{}`,
 	`{"name":"n ü","description":"d","attribution":"© a","version":"2","vector_layers":[{"id":"l","fields":{"f":"String"}}],"extra":{"nested":[1,2,{"k":null}]}}`,
 	`{"name":"only-name"}`,
+	// descriptive fields are data like any other: TileJSON reports them whatever their JSON type
+	`{"name":7,"description":{"en":"d","de":"b"},"attribution":["a","© b"],"version":2,"vector_layers":[]}`,
+	`{"version":3.5,"name":true,"attribution":"","description":"x y"}`,
 }
 
 func (C12) Gen(r *core.Rng, tier string, emit func(string)) {
